@@ -629,6 +629,6 @@ CLAIM = {
             "one tagged order per new row; _on_open_position tags its exits and - for every relation of a pre-declared exit price to the "
             "entry price - submits one reduce-only closing order of the declared quantity (its replacement of wrong-side exits by an "
             "immediate market close is a recorded known finding); liquidate() after a consumed identical declaration still submits its exit; _execute_cancel cancels everything and clears all "
-            "declaration fields; the entry-cancel guard in _check is the stated conjunction. A declaration that went through one pass and is then changed in place (self.stop_loss[0, 1] = x) is replaced as well.",
+            "declaration fields; the entry-cancel guard in _check is the stated conjunction. A declaration that went through one pass and is then changed in place (self.stop_loss[0, 1] = x) is replaced as well. Every @property of Strategy is an observer (R7).",
     "note": "Trusted: interpreter semantics; price cases are concrete witnesses of the ordinal/boundary cells of |1-p/cur| vs 0.00015.",
 }
